@@ -46,6 +46,26 @@ theorem Inv.congr {p q : Pool} (h1 : p.reg = q.reg) (h2 : p.last = q.last) (h3 :
 @[simp] theorem register_pid (p : Pool) (o : Obj) : (register p o).pid = p.pid := by
   unfold register; split <;> rfl
 
+theorem registerNew_core (p : Pool) (o : Obj) :
+    (registerNew p o).reg = p.reg ∧ (registerNew p o).last = p.last ∧ (registerNew p o).pf = p.pf ∧
+    (registerNew p o).pr = p.pr ∧ (registerNew p o).tr = p.tr ∧ (registerNew p o).panics = p.panics ∧
+    (registerNew p o).pid = p.pid := by
+  unfold registerNew
+  simp [clearFinalizer]
+
+@[simp] theorem registerNew_reg (p : Pool) (o : Obj) : (registerNew p o).reg = p.reg := (registerNew_core p o).1
+@[simp] theorem registerNew_last (p : Pool) (o : Obj) : (registerNew p o).last = p.last := (registerNew_core p o).2.1
+@[simp] theorem registerNew_pf (p : Pool) (o : Obj) : (registerNew p o).pf = p.pf := (registerNew_core p o).2.2.1
+@[simp] theorem registerNew_pr (p : Pool) (o : Obj) : (registerNew p o).pr = p.pr := (registerNew_core p o).2.2.2.1
+@[simp] theorem registerNew_tr (p : Pool) (o : Obj) : (registerNew p o).tr = p.tr := (registerNew_core p o).2.2.2.2.1
+@[simp] theorem registerNew_panics (p : Pool) (o : Obj) : (registerNew p o).panics = p.panics := (registerNew_core p o).2.2.2.2.2.1
+@[simp] theorem registerNew_pid (p : Pool) (o : Obj) : (registerNew p o).pid = p.pid := (registerNew_core p o).2.2.2.2.2.2
+
+/-- a new registration never makes the Go runtime throw -/
+theorem registerNew_fatal (p : Pool) (o : Obj) : (registerNew p o).fatal = p.fatal := by
+  unfold registerNew register clearFinalizer
+  simp
+
 theorem foldl_register_core (l : List Entry) (p : Pool) :
     let q := l.foldl (fun q e => register q e.val) p
     q.reg = p.reg ∧ q.last = p.last ∧ q.pf = p.pf ∧ q.pr = p.pr ∧ q.tr = p.tr ∧ q.panics = p.panics ∧ q.pid = p.pid := by
